@@ -414,6 +414,81 @@ func (r *Run) c07Scenario(trans string, k int, order string) {
 	hub.reset()
 }
 
+// c07DefaultTimeout: a call without a timeout option keeps the documented default even after other calls
+// used short timeouts; its response, arriving later than those short timeouts, must be returned.
+func (r *Run) c07DefaultTimeout(trans string) {
+	s, err := openSession(trans, 1)
+	if err != nil {
+		r.violate(Violation{What: "scenario setup failed: " + err.Error(), Case: trans})
+		return
+	}
+	defer s.close()
+	c1 := s.tc.doAsyncOpts(41, nil, client.RequestTimeout(120*time.Millisecond))
+	f := s.lk.nextRequest(2 * time.Second)
+	if f == nil {
+		return
+	}
+	s.lk.sendFrame(respFrame(1, 41, f.Rid, 0, []byte("fast")))
+	awaitDo(c1, 2*time.Second)
+	c2 := s.tc.doAsyncOpts(42, nil) // no option: default timeout (10 s)
+	f2 := s.lk.nextRequest(2 * time.Second)
+	if f2 == nil {
+		return
+	}
+	time.Sleep(450 * time.Millisecond)
+	s.lk.sendFrame(respFrame(1, 42, f2.Rid, 0, []byte("slow")))
+	res, ok := awaitDo(c2, 3*time.Second)
+	rs := "HANG"
+	if ok {
+		rs = resultStr(res)
+	}
+	events := fmt.Sprintf("S R0 W0.1 D.0.2.41.1.0.%s F0 S R1 W1.1 D.1.2.42.2.0.%s F1", hx([]byte("fast")), hx([]byte("slow")))
+	r.emit("wt.run "+events, fmt.Sprintf("RESP 1 0 %s ; %s | nr=%d dup=0 unsup=0", hx([]byte("fast")), rs, s.tc.log.count("no receiver for req")), true)
+	if !ok || res.pkt == nil {
+		r.violate(Violation{What: "a response that arrived 450 ms after the request, far inside the default request timeout, was not returned: " + rs,
+			Case: "wt.run " + events + " (call 1 used RequestTimeout(120ms), call 2 no option)"})
+	}
+	r.count("c07.default-timeout." + trans)
+}
+
+// c07AfterRecovery: on a connection re-established after a drop, a response arriving 100 ms after the request is returned.
+func (r *Run) c07AfterRecovery() {
+	s, err := openSession("tcp", 1, client.DialTimeout(time.Second))
+	if err != nil {
+		r.violate(Violation{What: "scenario setup failed: " + err.Error(), Case: "tcp"})
+		return
+	}
+	defer s.close()
+	s.lk.drop()
+	pc := s.tcp.accept(4 * time.Second)
+	if pc == nil || !pc.readHandshake(2*time.Second) {
+		r.violate(Violation{What: "client did not re-dial after the peer dropped the connection", Case: "c07 after-recovery"})
+		return
+	}
+	if !waitUntil(3*time.Second, func() bool { return s.tc.reconCount() >= 1 }) {
+		r.violate(Violation{What: "no after-reconnect callback after a successful re-dial", Case: "c07 after-recovery"})
+		return
+	}
+	ch := s.tc.doAsync(43, nil, 2*time.Second)
+	f := pc.readFrame(2 * time.Second)
+	rs := "NOFRAME"
+	if f != nil {
+		time.Sleep(100 * time.Millisecond)
+		pc.send(respFrame(1, 43, f.Rid, 0, []byte("again")))
+		res, ok := awaitDo(ch, 3*time.Second)
+		rs = "HANG"
+		if ok {
+			rs = resultStr(res)
+		}
+		// the re-dialled connection has its own id generator: this is its first request
+		r.emit(fmt.Sprintf("wt.run S R0 W0.1 D.0.2.43.%d.0.%s F0", f.Rid, hx([]byte("again"))), rs+" | nr=0 dup=0 unsup=0", true)
+	}
+	if !strings.HasPrefix(rs, "RESP") {
+		r.violate(Violation{What: "after a successful recovery a response arriving 100 ms after the request was not returned: " + rs, Case: "drop; re-dial; Do; answer after 100ms"})
+	}
+	r.count("c07.after-recovery")
+}
+
 func runC07(r *Run) {
 	installHooks()
 	r.st.Rule = "the three relative orders of {request handed to transport, waiter registered, response dispatched} that the code can produce are forced with the do.after-write hook: callers parked right after the write while the peer answers (response dispatched before the caller starts waiting), and the ordinary order; 1..8 concurrent callers, answers in reverse order, TCP and WebSocket; each call must return its response; history replayed by Model/Waiters.v. distinct = distinct request lines"
@@ -426,5 +501,7 @@ func runC07(r *Run) {
 			r.c07Scenario(trans, k, "answer-before-caller-waits")
 			r.c07Scenario(trans, k, "ordinary")
 		}
+		r.c07DefaultTimeout(trans)
 	}
+	r.c07AfterRecovery()
 }
